@@ -50,6 +50,8 @@ class Check:
         self.notes = []
         self.kani = None
         self.eng = prep.engine(need_bin=need_bin, debug_assertions=debug_assertions, **(engine_kw or {}))
+        if os.environ.get('VERIF_MAXPATHS'):
+            self.eng.max_paths = int(os.environ['VERIF_MAXPATHS'])
         self.known = load_known()
 
     # ------------------------------------------------------------------
@@ -113,6 +115,10 @@ class Check:
         st['queries'] += eng.stats['queries'] - q0
         st['steps'] += eng.stats['steps'] - s0
         st['wall_s'] += time.time() - t0
+        if os.environ.get('VERIF_PROFILE'):
+            top = sorted(eng.fork_sites.items(), key=lambda kv: -kv[1])[:10]
+            log('    fork sites: %s' % top)
+            eng.fork_sites.clear()
         log('[%s] %-34s paths=%d queries=%d steps=%d failed=%d %.1fs %s' % (
             self.pid, name, st['paths'], st['queries'], st['steps'], st['failed'], st['wall_s'], dict(st['outcomes'])))
         return st
